@@ -162,6 +162,51 @@ fn eval_inner(line: &str) -> String {
                     && seen == rev
                     && seen2 == rev
             };
+            // nth / nth_back with every count up to two past the end, from the whole iterator and after one item
+            // was taken from either end: the answer, and what is left afterwards (size and members, both ends)
+            let jumps = |it: json_syntax::kind::KindSetIter, want: &[usize]| -> bool {
+                let mut ok = true;
+                for n in 0..=want.len() + 2 {
+                    let mut a = it.clone();
+                    let mut v: std::collections::VecDeque<usize> = want.iter().copied().collect();
+                    let got = a.nth_back(n).map(kidx);
+                    let exp = if n < v.len() {
+                        v.truncate(v.len() - n);
+                        v.pop_back()
+                    } else {
+                        v.clear();
+                        None
+                    };
+                    ok &= got == exp && a.len() == v.len() && a.size_hint() == (v.len(), Some(v.len()))
+                        && a.clone().map(kidx).collect::<Vec<_>>() == v.iter().copied().collect::<Vec<_>>()
+                        && a.next_back().map(kidx) == v.back().copied();
+                    let mut a = it.clone();
+                    let mut v: std::collections::VecDeque<usize> = want.iter().copied().collect();
+                    let got = a.nth(n).map(kidx);
+                    let exp = if n < v.len() {
+                        v.drain(..n);
+                        v.pop_front()
+                    } else {
+                        v.clear();
+                        None
+                    };
+                    ok &= got == exp && a.len() == v.len() && a.clone().rev().map(kidx).collect::<Vec<_>>() == v.iter().rev().copied().collect::<Vec<_>>()
+                        && a.next().map(kidx) == v.front().copied();
+                    let mut r = it.clone().rev();
+                    let w: Vec<usize> = want.iter().rev().copied().collect();
+                    ok &= r.nth(n).map(kidx) == w.get(n).copied() && r.len() == w.len().saturating_sub(n + 1)
+                        && it.clone().rev().skip(n).map(kidx).collect::<Vec<_>>() == w.iter().skip(n).copied().collect::<Vec<_>>();
+                }
+                ok
+            };
+            ok &= jumps(s.iter(), &members);
+            if members.len() >= 2 {
+                let mut it = s.iter();
+                it.next();
+                ok &= jumps(it.clone(), &members[1..]);
+                it.next_back();
+                ok &= jumps(it, &members[1..members.len() - 1]);
+            }
             ok &= backward(s.iter(), &members);
             if members.len() >= 2 {
                 let mut it = s.iter();
